@@ -3,7 +3,7 @@ CONF = {
     'coq_sample': 15,   # cases re-evaluated inside Coq by vm_compute against the extracted runner's output
     'interesting': ['truncated-prefix-of-valid', 'option-length-extreme', 'residue-options', 'residue-padding',
                     'pad-residue', 'odd-payload', 'dirty-buffer', 'no-fixlengths', 'error-after-add',
-                    'two-or-more-options', 'padding-lost', 'length-boundary', 'big-payload'],
+                    'two-or-more-options', 'padding-lost', 'length-boundary', 'big-payload', 'option-bytes-boundary'],
     'rule': 'IPv4 datagrams built field by field by the harness (0..5 options, EOL/NOP/typed, zero and non-zero padding) '
             'decoded, serialized under all FixLengths/ComputeChecksums/buffer-kind combinations and round-tripped; every '
             'truncation length 0..header+2; IHL 0..15; Length forced to 0,1,19,20,21,hl-1,hl,hl+1,len-1,len+1,len+1000,65535; '
